@@ -139,6 +139,9 @@ def _seat_guard_kind(ctx, func, test):
             parts = [l.left, l.right]
             if any(is_len_sel(p, 'hopeful') for p in parts) and any(is_len_sel(p, 'elected') for p in parts):
                 return 'hopeful+elected<=seats'
+        # E.seatsLeftToFill() > 0
+        if a.formula(test) == ('lit', 'S', True):
+            return 'seatsLeft>0'
         # len(C.hopeful()) <= E.nSeats   (only valid while nobody is elected: round 1)
         if isinstance(op, ast.LtE) and is_len_sel(l, 'hopeful') and ctx.canon(r, func) == 'E.nSeats':
             return 'hopeful<=seats@round1'
